@@ -217,7 +217,7 @@ def parse_list(out, name):
     body = m.group(1).strip()[1:-1].strip()
     if not body:
         return []
-    return [int(x) for x in re.split(r"[;\s]+", body) if x.strip()]
+    return [int(x.replace("%N", "")) for x in re.split(r"[;\s]+", body) if x.strip()]
 
 
 def evaluate(plugin, recs, tag="gen", shard=300):
@@ -230,11 +230,12 @@ def evaluate(plugin, recs, tag="gen", shard=300):
         path = os.path.join(wd, "cases_%s_%s_%d.v" % (plugin.ID, tag, si))
         with open(path, "w") as f:
             f.write("(* generated by tools/check.py from the implementation trace *)\n")
-            f.write("From Coq Require Import List ZArith String. Import ListNotations.\n")
+            f.write("From Coq Require Import List ZArith NArith String. Import ListNotations.\n")
             f.write(plugin.CASES_HEADER + "\n")
             f.write("Set Printing Width 1000000. Set Printing Depth 1000000.\n")
-            f.write("Definition cases : list (nat * %s) := [\n" % plugin.CASE_TYPE)
-            f.write(";\n".join("  (%d, %s)" % (r["id"], plugin.to_coq_case(r)) for r in sh))
+            # case ids are binary N literals (a unary nat id of 10^6 overflows the stack in vm_compute)
+            f.write("Definition cases : list (N * %s) := [\n" % plugin.CASE_TYPE)
+            f.write(";\n".join("  ((%d)%%N, %s)" % (r["id"], plugin.to_coq_case(r)) for r in sh))
             f.write("\n].\n")
             f.write("Definition M := Eval vm_compute in map fst (filter (fun c => %s (snd c)) cases).\n" % plugin.MISMATCH_FN)
             f.write("Definition V := Eval vm_compute in map fst (filter (fun c => %s (snd c)) cases).\n" % plugin.VIOLATES_FN)
@@ -438,12 +439,13 @@ def main():
             if not ok:
                 infra("harness failed on corpus:\n" + hout)
             for r in crecs:
-                r["id"] += 1000000
                 r["from_corpus"] = True
             recs += crecs
     ok, grecs, hout, hdt = run_harness(plugin, tier, seed)
     if not ok:
         infra("harness run failed:\n" + hout)
+    for r in grecs:
+        r["id"] += len(recs)  # corpus records come first
     recs += grecs
     log("harness: %d records in %.0fs" % (len(recs), hdt))
     M, V, err = evaluate(plugin, recs)
